@@ -278,7 +278,9 @@ impl Dump {
             bcr: b.castle_rights(Color::Black).to_index(),
             pinned: b.pinned().0,
             checkers: b.checkers().0,
-            hash: raw_hash(b),
+            // the *observable* hash `get_hash()`; the driver derives the private `hash` field of the model from it
+            // (raw = get_hash ^ side ^ castle ^ ep keys), so `impl Hash` is never relied on for the state
+            hash: guard(|| b.get_hash()).unwrap_or(0),
             ep: b.en_passant().map(|s| s.to_index()),
         }
     }
@@ -454,6 +456,64 @@ impl BD {
         bb.castle_rights(Color::White, cr(self.wcr));
         bb.castle_rights(Color::Black, cr(self.bcr));
         bb.en_passant(self.ep.map(File::from_index));
+        bb
+    }
+
+    /// The same state through a state-determined order of the setter calls (one of the 24 orders of the four
+    /// field groups, squares ascending or descending, optionally preceded by junk values that are overwritten).
+    pub fn builder_shuffled(&self) -> BoardBuilder {
+        let mut h: u64 = 0xcbf29ce484222325;
+        for b in self.text().bytes() {
+            h = (h ^ b as u64).wrapping_mul(0x100000001b3);
+        }
+        let mut bb = BoardBuilder::new();
+        if h & 1 != 0 {
+            bb.side_to_move(!self.stm);
+            bb.en_passant(Some(File::from_index(((h >> 8) & 7) as usize)));
+            bb.castle_rights(Color::White, cr(((h >> 12) & 3) as usize));
+            bb.castle_rights(Color::Black, cr(((h >> 14) & 3) as usize));
+            bb.piece(sq(((h >> 16) & 63) as usize), Piece::Knight, Color::White);
+        }
+        let mut order = [0usize, 1, 2, 3];
+        let mut k = (h >> 24) % 24;
+        for i in 0..3 {
+            let n = 4 - i as u64;
+            let j = i + (k % n) as usize;
+            k /= n;
+            order.swap(i, j);
+        }
+        for step in order.iter() {
+            match *step {
+                0 => {
+                    bb.side_to_move(self.stm);
+                }
+                1 => {
+                    bb.en_passant(self.ep.map(File::from_index));
+                }
+                2 => {
+                    if h & 2 != 0 {
+                        bb.castle_rights(Color::Black, cr(self.bcr));
+                        bb.castle_rights(Color::White, cr(self.wcr));
+                    } else {
+                        bb.castle_rights(Color::White, cr(self.wcr));
+                        bb.castle_rights(Color::Black, cr(self.bcr));
+                    }
+                }
+                _ => {
+                    for i in 0..64 {
+                        let i = if h & 4 != 0 { 63 - i } else { i };
+                        match self.sq[i] {
+                            Some((p, c)) => {
+                                bb.piece(sq(i), p, c);
+                            }
+                            None => {
+                                bb.clear_square(sq(i));
+                            }
+                        }
+                    }
+                }
+            }
+        }
         bb
     }
 
